@@ -184,6 +184,8 @@ def _demog(d):
         if d.get('p_maternal_death'): kw['p_maternal_death'] = ss.bernoulli(d['p_maternal_death'])
         if d.get('p_neonatal_death'): kw['p_neonatal_death'] = ss.bernoulli(d['p_neonatal_death'])
         if 'burnin' in d: kw['burnin'] = d['burnin']
+        if 'dur_pregnancy' in d:       # (value, unit): gestation given in another unit than the module's
+            kw['dur_pregnancy'] = ss.dur(d['dur_pregnancy'][0], unit=d['dur_pregnancy'][1])
         return ss.Pregnancy(**kw)
     raise ValueError(t)
 
